@@ -88,3 +88,58 @@ func VerifC13RaceHTTP() {
 	zzverif.Assert(len(ctl.groups) == 0, "C13.racehttp.group-removed-at-the-end")
 	zzverif.Assert(ctl.Register("p3", "g", "k2", rc) == nil, "C13.racehttp.group-can-be-created-again")
 }
+
+// VerifC13RaceFirstJoins: two first joins of a group that does not exist yet run side by side and
+// the first socket that is opened fails (port squatted): whoever ends up a live member is a member
+// of THE group registered under that name - a later join with the right key finds it and shares its
+// port, a join with a wrong key is refused - and when nobody is left nothing is left.
+func VerifC13RaceFirstJoins() {
+	zzverif.SetPreempt(zzverif.Param("preempt", 1))
+	pm := ports.NewManager("tcp", "0.0.0.0", []types.PortsRange{{Start: 1000, End: 1000}})
+	ctl := NewTCPGroupCtl(pm)
+	c13Net.listeners, c13Net.failNext, c13Net.probeFixed = nil, true, true
+	var lnB net.Listener
+	var errB error
+	bDone := false
+	go func() {
+		lnB, _, errB = ctl.Listen("p2", "g", "k", "0.0.0.0", 1000)
+		bDone = true
+	}()
+	lnA, _, errA := ctl.Listen("p1", "g", "k", "0.0.0.0", 1000)
+	zzverif.Quiesce()
+	zzverif.Assert(bDone, "C13.racefirst.joins-terminate")
+	live := 0
+	if errA == nil {
+		live++
+	}
+	if errB == nil {
+		live++
+	}
+	if live > 0 {
+		g, ok := ctl.groups["g"]
+		zzverif.Assert(ok && len(g.lns) == live, "C13.racefirst.live-members-are-in-the-registered-group")
+		// a later member with the right key joins the same group, one with a wrong key is refused
+		ln3, _, err3 := ctl.Listen("p3", "g", "k", "0.0.0.0", 1000)
+		zzverif.Assert(err3 == nil, "C13.racefirst.valid-later-join-succeeds")
+		_, _, err4 := ctl.Listen("p4", "g", "wrong", "0.0.0.0", 1000)
+		zzverif.Assert(err4 != nil, "C13.racefirst.wrong-key-refused-while-the-group-lives")
+		if err3 == nil {
+			_ = ln3.Close()
+		}
+		zzverif.Reach("C13.racefirst.someone-joined")
+	} else {
+		zzverif.Reach("C13.racefirst.both-refused")
+	}
+	if errA == nil {
+		_ = lnA.Close()
+	}
+	if errB == nil {
+		_ = lnB.Close()
+	}
+	zzverif.Quiesce()
+	_, e := pm.Acquire("z", 1000)
+	zzverif.Assert(e == nil, "C13.racefirst.port-free-at-the-end")
+	for _, l := range c13Net.listeners {
+		zzverif.Assert(l.closed >= 1, "C13.racefirst.listeners-closed-at-the-end")
+	}
+}
